@@ -177,7 +177,7 @@ theorem overwrite_keeps_counter_witness :
     let s' := (step linkedPair (.create ["a"] { isDir := false, tag := 4, chunks := [2], hl := 0, cnt := 0 } false)).1
     (kvGet s' 1).map (·.cnt) = some 2 ∧ nameCount s'.ents 1 = 1 := by decide
 
-/-- delete/counter-above-names: metadata-only recursive delete of the directory of a name -/
+/-- delete-meta-only/counter-above-names: metadata-only recursive delete of the directory of a name -/
 theorem meta_only_delete_keeps_counter_witness :
     let s := run {} [.create ["c", "a"] { isDir := false, tag := 1, chunks := [1], hl := 0, cnt := 0 } false, .link ["c", "a"] ["b"] 1]
     let s' := (step s (.delete ["a"] true false false)).1
